@@ -7,6 +7,8 @@ pub mod c01;
 pub mod c02;
 pub mod c03;
 pub mod c04;
+pub mod c06;
+pub mod c08;
 pub mod c15;
 pub mod c17;
 
@@ -27,7 +29,7 @@ pub struct CheckDef {
 }
 
 pub fn registry() -> Vec<CheckDef> {
-    vec![c01::def(), c02::def(), c03::def(), c04::def(), c15::def(), c17::def()]
+    vec![c01::def(), c02::def(), c03::def(), c04::def(), c06::def(), c08::def(), c15::def(), c17::def()]
 }
 
 /// deterministic xorshift generator for seeded sampling
